@@ -325,6 +325,12 @@ class RendererHTML(RendererProtocol):
     ) -> str:
         return escapeHtml(tokens[idx].content)
 
+    def text_special(
+        self, tokens: Sequence[Token], idx: int, options: OptionsDict, env: EnvType
+    ) -> str:
+        # escapes and entities that ``text_join`` has not folded into text (rule disabled)
+        return escapeHtml(tokens[idx].content)
+
     def html_block(
         self, tokens: Sequence[Token], idx: int, options: OptionsDict, env: EnvType
     ) -> str:
